@@ -1038,12 +1038,14 @@ class Simplifier(pysmt.walkers.DagWalker):
             else:
                 assert sl.is_int_constant()
                 # smtlib2 semantics of integer division:
-                # r > 0 : l / r == floor(float(l) / r)
-                # r < 0 : l / r == ceil(float(l) / r)
+                # r > 0 : l / r == floor(l / r)
+                # r < 0 : l / r == ceil(l / r)
+                # (computed on integers: floats lose precision on
+                # large values)
                 if r > 0:
-                    return self.manager.Int(math.floor(float(l) / r))
+                    return self.manager.Int(l // r)
                 if r < 0:
-                    return self.manager.Int(math.ceil(float(l) / r))
+                    return self.manager.Int(-(l // -r))
 
         if sl.is_constant():
             if sl.is_zero():
